@@ -795,6 +795,12 @@ func (state *RuntimeState) getUsernameIfKeymasterSigned(VerifiedChains [][]*x509
 		if len(chain) < 2 {
 			continue
 		}
+		// Certificates issued by the role requesting CA are IP restricted
+		// automation certs: those are only acceptable via
+		// getUsernameIfIPRestricted (which checks the peer address).
+		if bytes.Equal(chain[1].Raw, state.selfRoleCaCertDer) {
+			continue
+		}
 		username := chain[0].Subject.CommonName
 		//keymaster certs as signed directly
 		certSignerPKFingerprint, err := getKeyFingerprint(chain[1].PublicKey)
@@ -888,7 +894,8 @@ func (state *RuntimeState) checkAuth(w http.ResponseWriter, r *http.Request, req
 			var authData authInfo
 			tlsAuthUser, notBefore, err :=
 				state.getUsernameIfKeymasterSigned(r.TLS.VerifiedChains)
-			if err == nil && tlsAuthUser != "" {
+			if err == nil && tlsAuthUser != "" &&
+				(requiredAuthType&AuthTypeKeymasterX509) != 0 {
 				state.logger.Debugf(4, "Auth, Is keymastercert")
 				authData.AuthType = authData.AuthType | AuthTypeKeymasterX509
 				authData.IssuedAt = notBefore
